@@ -152,19 +152,15 @@ def getContentKey (E : Ext) (attrs : List Attr) : Option Str :=
 def hasTypeshareAnnotation (attrs : List Attr) : Bool :=
   attrs.any fun a => a.val.segs.any (· == kTypeshare)
 
-/-- `get_ident`.  `rename_all_to_case` runs before `serde(rename)` is looked at, so its panic
-is not avoided by an explicit rename. -/
-def getIdent (E : Ext) (ident : Option Str) (attrs : List Attr) (renameAll : Option Str) : Outcome Id :=
+/-- `get_ident`.  `rename_all_to_case` runs before `serde(rename)` is looked at. -/
+def getIdent (E : Ext) (ident : Option Str) (attrs : List Attr) (renameAll : Option Str) : Outcome Id := do
   let original := match ident with
     | some i => Str.replaceSub i s%"r#" []
     | none => s%"???"
-  match renameAllToCase E.U original renameAll with
-  | .ok renamed =>
-    (match serdeRename E attrs with
-    | some s => .ok ⟨original, s, true⟩
-    | none => .ok ⟨original, renamed, false⟩)
-  | .err e => .err e
-  | .panic s => .panic s
+  let renamed ← renameAllToCase E.U original renameAll
+  match serdeRename E attrs with
+  | some s => pure ⟨original, s, true⟩
+  | none => pure ⟨original, renamed, false⟩
 
 /-- `parse_comment_attrs` -/
 def parseCommentAttrs (E : Ext) (attrs : List Attr) : List Str :=
@@ -221,28 +217,22 @@ def decoratorArgs (E : Ext) (args : List Meta) : Option (List FieldDecorator) :=
 
 def langOrder : List Lang := [.go, .kotlin, .scala, .swift, .typescript, .python]
 
-/-- `get_field_decorators`.  A nested list whose name is not a language is ignored (before the
-`fix:` commit 26c823b it panicked in `ident.try_into().unwrap()`). -/
-def getFieldDecorators (E : Ext) (attrs : List Attr) : Outcome (List (Lang × List FieldDecorator)) :=
-  let lists := (attrs.flatMap fun a => getMetaItems a kTypeshare).filterMap fun m =>
+/-- the nested `typeshare(<language>(…))` lists of a field, in attribute order; a nested list whose
+name is not a language is ignored (before the `fix:` commit 26c823b it panicked in
+`ident.try_into().unwrap()`) -/
+def decoratorLists (E : Ext) (attrs : List Attr) : List (Lang × List FieldDecorator) :=
+  (attrs.flatMap fun a => getMetaItems a kTypeshare).filterMap fun m =>
     match m with
-    | .list [name] _ args => some (name, args)
+    | .list [name] _ args => (langOfStr E name).map fun l => (l, (decoratorArgs E args).getD [])
     | _ => none
-  let rec go : List (Str × List Meta) → List (Lang × List FieldDecorator) →
-      Outcome (List (Lang × List FieldDecorator))
-    | [], acc => .ok acc
-    | (name, args) :: rest, acc =>
-      match langOfStr E name with
-      | none => go rest acc
-      | some l => go rest (acc ++ [(l, (decoratorArgs E args).getD [])])
-  match go lists [] with
-  | .ok pairs =>
-    .ok (langOrder.filterMap fun l =>
-      let mine := pairs.filter (·.1 == l)
-      if mine.isEmpty then none
-      else some (l, toSet FieldDecorator.lt (mine.flatMap (·.2))))
-  | .err e => .err e
-  | .panic s => .panic s
+
+/-- `get_field_decorators` -/
+def getFieldDecorators (E : Ext) (attrs : List Attr) : List (Lang × List FieldDecorator) :=
+  let pairs := decoratorLists E attrs
+  langOrder.filterMap fun l =>
+    let mine := pairs.filter (·.1 == l)
+    if mine.isEmpty then none
+    else some (l, toSet FieldDecorator.lt (mine.flatMap (·.2)))
 
 /-- `str::split(',')` -/
 def splitComma (s : Str) : List Str :=
@@ -273,101 +263,72 @@ def fieldType (E : Ext) (attrs : List Attr) (ty : SynType) : Outcome RustType :=
 
 /-- one named field of a struct or of a struct variant (`checkFlatten` is `true` at both call
 sites since the `fix:` commit that made struct-variant fields reject `serde(flatten)` too) -/
-def parseField (E : Ext) (checkFlatten : Bool) (renameAll : Option Str) (f : Field) : Outcome RustField :=
-  match fieldType E f.attrs f.ty with
-  | .ok ty =>
-    if checkFlatten && serdeFlatten f.attrs then .err .serdeFlattenNotAllowed
-    else
-      match getFieldDecorators E f.attrs with
-      | .ok decorators =>
-        (match getIdent E f.ident f.attrs renameAll with
-        | .ok id => .ok { id, ty, comments := parseCommentAttrs E f.attrs,
-                          hasDefault := serdeDefault f.attrs, decorators }
-        | .err e => .err e
-        | .panic s => .panic s)
-      | .err e => .err e
-      | .panic s => .panic s
-  | .err e => .err e
-  | .panic s => .panic s
+def parseField (E : Ext) (checkFlatten : Bool) (renameAll : Option Str) (f : Field) : Outcome RustField := do
+  let ty ← fieldType E f.attrs f.ty
+  if checkFlatten && serdeFlatten f.attrs then .err .serdeFlattenNotAllowed
+  else
+    let id ← getIdent E f.ident f.attrs renameAll
+    pure { id, ty, comments := parseCommentAttrs E f.attrs, hasDefault := serdeDefault f.attrs,
+           decorators := getFieldDecorators E f.attrs }
 
 def mkAlias (E : Ext) (ident : Str) (attrs : List Attr) (gens : List GenericParam) (ty : RustType) :
-    Outcome RustItem :=
-  match getIdent E (some ident) attrs none with
-  | .ok id => .ok (.alias { id, genericTypes := genericTypes gens, ty,
-                             comments := parseCommentAttrs E attrs,
-                             decorators := getDecorators E attrs, isRedacted := isRedacted attrs })
-  | .err e => .err e
-  | .panic s => .panic s
+    Outcome RustItem := do
+  let id ← getIdent E (some ident) attrs none
+  pure (.alias { id, genericTypes := genericTypes gens, ty, comments := parseCommentAttrs E attrs,
+                 decorators := getDecorators E attrs, isRedacted := isRedacted attrs })
 
 def mkStruct (E : Ext) (ident : Str) (attrs : List Attr) (gens : List GenericParam)
-    (fields : List RustField) : Outcome RustItem :=
-  match getIdent E (some ident) attrs none with
-  | .ok id => .ok (.struct { id, genericTypes := genericTypes gens, fields,
-                              comments := parseCommentAttrs E attrs,
-                              decorators := getDecorators E attrs, isRedacted := isRedacted attrs })
-  | .err e => .err e
-  | .panic s => .panic s
+    (fields : List RustField) : Outcome RustItem := do
+  let id ← getIdent E (some ident) attrs none
+  pure (.struct { id, genericTypes := genericTypes gens, fields, comments := parseCommentAttrs E attrs,
+                  decorators := getDecorators E attrs, isRedacted := isRedacted attrs })
+
+/-- the `serialized_as` hack on a struct or enum: the item becomes an alias of the given type -/
+def serializedAlias (E : Ext) (ident : Str) (attrs : List Attr) (gens : List GenericParam) (s : Str) :
+    Outcome RustItem := do
+  let ty ← RustTypes.fromStr E.parseType s
+  mkAlias E ident attrs gens ty
 
 /-- `parse_struct` -/
 def parseStruct (E : Ext) (targetOs : List Str) (attrs : List Attr) (ident : Str)
     (gens : List GenericParam) (fields : Fields) : Outcome RustItem :=
   match getSerializedAsType E attrs with
-  | some s =>
-    -- `get_ident` is evaluated before `ty.parse()?` (struct literal field order)
-    (match getIdent E (some ident) attrs none with
-    | .ok _ =>
-      (match RustTypes.fromStr E.parseType s with
-      | .ok ty => mkAlias E ident attrs gens ty
-      | .err e => .err e
-      | .panic p => .panic p)
-    | .err e => .err e
-    | .panic p => .panic p)
+  | some s => serializedAlias E ident attrs gens s
   | none =>
     match fields with
-    | .named fs =>
-      (match Outcome.mapM' (parseField E true (serdeRenameAll E attrs))
-          (fs.filter fun f => !isSkipped f.attrs targetOs) with
-      | .ok rfs => mkStruct E ident attrs gens rfs
-      | .err e => .err e
-      | .panic p => .panic p)
+    | .named fs => do
+      let rfs ← Outcome.mapM' (parseField E true (serdeRenameAll E attrs))
+        (fs.filter fun f => !isSkipped f.attrs targetOs)
+      mkStruct E ident attrs gens rfs
     | .unnamed fs =>
       if fs.length > 1 then .err .complexTupleStruct
       else
         match fs with
         | [] => .err .unsupportedItem
-        | f :: _ =>
-          (match fieldType E f.attrs f.ty with
-          | .ok ty => mkAlias E ident attrs gens ty
-          | .err e => .err e
-          | .panic p => .panic p)
+        | f :: _ => do
+          let ty ← fieldType E f.attrs f.ty
+          mkAlias E ident attrs gens ty
     | .unit => mkStruct E ident attrs gens []
 
 /-- `parse_enum_variant` -/
 def parseEnumVariant (E : Ext) (targetOs : List Str) (enumRenameAll : Option Str) (v : Variant) :
-    Outcome RustEnumVariant :=
-  match getIdent E (some v.ident) v.attrs enumRenameAll with
-  | .ok id =>
-    let comments := parseCommentAttrs E v.attrs
-    (match v.fields with
-    | .unit => .ok (.unit id comments)
-    | .unnamed fs =>
-      if fs.length > 1 then .err .multipleUnnamedAssociatedTypes
-      else
-        match fs with
-        | [] => .err .unsupportedItem
-        | f :: _ =>
-          (match fieldType E f.attrs f.ty with
-          | .ok ty => .ok (.tuple id comments ty)
-          | .err e => .err e
-          | .panic p => .panic p)
-    | .named fs =>
-      (match Outcome.mapM' (parseField E true (serdeRenameAll E v.attrs))
-          (fs.filter fun f => !isSkipped f.attrs targetOs) with
-      | .ok rfs => .ok (.anonymousStruct id comments rfs)
-      | .err e => .err e
-      | .panic p => .panic p))
-  | .err e => .err e
-  | .panic p => .panic p
+    Outcome RustEnumVariant := do
+  let id ← getIdent E (some v.ident) v.attrs enumRenameAll
+  let comments := parseCommentAttrs E v.attrs
+  match v.fields with
+  | .unit => pure (.unit id comments)
+  | .unnamed fs =>
+    if fs.length > 1 then .err .multipleUnnamedAssociatedTypes
+    else
+      match fs with
+      | [] => .err .unsupportedItem
+      | f :: _ => do
+        let ty ← fieldType E f.attrs f.ty
+        pure (.tuple id comments ty)
+  | .named fs => do
+    let rfs ← Outcome.mapM' (parseField E true (serdeRenameAll E v.attrs))
+      (fs.filter fun f => !isSkipped f.attrs targetOs)
+    pure (.anonymousStruct id comments rfs)
 
 def variantIsUnit : RustEnumVariant → Bool
   | .unit _ _ => true
@@ -378,59 +339,45 @@ def variantRefs (name : Str) : RustEnumVariant → Bool
   | .tuple _ _ ty => ty.containsType name
   | .anonymousStruct _ _ fs => fs.any fun f => f.ty.containsType name
 
+/-- unit or algebraic, and the `tag` / `content` requirements -/
+def enumShape (E : Ext) (attrs : List Attr) (shared : RustEnum) : Outcome RustItem :=
+  if shared.variants.all variantIsUnit then
+    if (getTagKey E attrs).isSome then .err .serdeTagNotAllowed
+    else if (getContentKey E attrs).isSome then .err .serdeContentNotAllowed
+    else pure (.enum shared)
+  else
+    match getTagKey E attrs with
+    | none => .err .serdeTagRequired
+    | some tag =>
+      match getContentKey E attrs with
+      | none => .err .serdeContentRequired
+      | some content => pure (.enum { shared with keys := some (tag, content) })
+
 /-- `parse_enum` -/
 def parseEnum (E : Ext) (targetOs : List Str) (attrs : List Attr) (ident : Str)
     (gens : List GenericParam) (variants : List Variant) : Outcome RustItem :=
   match getSerializedAsType E attrs with
-  | some s =>
-    (match getIdent E (some ident) attrs none with
-    | .ok _ =>
-      (match RustTypes.fromStr E.parseType s with
-      | .ok ty => mkAlias E ident attrs gens ty
-      | .err e => .err e
-      | .panic p => .panic p)
-    | .err e => .err e
-    | .panic p => .panic p)
-  | none =>
-    match Outcome.mapM' (parseEnumVariant E targetOs (serdeRenameAll E attrs))
-        (variants.filter fun v => !isSkipped v.attrs targetOs) with
-    | .ok vs =>
-      (match getIdent E (some ident) attrs none with
-      | .ok id =>
-        let shared : RustEnum :=
-          { keys := none, id, genericTypes := genericTypes gens,
-            comments := parseCommentAttrs E attrs, variants := vs,
-            decorators := getDecorators E attrs,
-            isRecursive := vs.any (variantRefs ident), isRedacted := isRedacted attrs }
-        if vs.all variantIsUnit then
-          if (getTagKey E attrs).isSome then .err .serdeTagNotAllowed
-          else if (getContentKey E attrs).isSome then .err .serdeContentNotAllowed
-          else .ok (.enum shared)
-        else
-          match getTagKey E attrs with
-          | none => .err .serdeTagRequired
-          | some tag =>
-            (match getContentKey E attrs with
-            | none => .err .serdeContentRequired
-            | some content => .ok (.enum { shared with keys := some (tag, content) }))
-      | .err e => .err e
-      | .panic p => .panic p)
-    | .err e => .err e
-    | .panic p => .panic p
+  | some s => serializedAlias E ident attrs gens s
+  | none => do
+    let vs ← Outcome.mapM' (parseEnumVariant E targetOs (serdeRenameAll E attrs))
+      (variants.filter fun v => !isSkipped v.attrs targetOs)
+    let id ← getIdent E (some ident) attrs none
+    enumShape E attrs
+      { keys := none, id, genericTypes := genericTypes gens, comments := parseCommentAttrs E attrs,
+        variants := vs, decorators := getDecorators E attrs,
+        isRecursive := vs.any (variantRefs ident), isRedacted := isRedacted attrs }
 
 /-- `parse_type_alias` -/
 def parseTypeAlias (E : Ext) (attrs : List Attr) (ident : Str) (gens : List GenericParam)
-    (ty : SynType) : Outcome RustItem :=
-  match fieldType E attrs ty with
-  | .ok t => mkAlias E ident attrs gens t
-  | .err e => .err e
-  | .panic p => .panic p
+    (ty : SynType) : Outcome RustItem := do
+  let t ← fieldType E attrs ty
+  mkAlias E ident attrs gens t
 
 /-- `parse_const_expr`: only a plain integer literal is accepted (`init = none`: the initialiser
 is some other expression) -/
 def parseConstExpr (init : Option Lit) : Outcome Nat :=
   match init with
-  | some (.int v _) => if v ≤ i128Max then .ok v else .err .rustConstTypeInvalid
+  | some (.int v _) => if v ≤ i128Max then pure v else .err .rustConstTypeInvalid
   | some _ => .err .rustConstTypeInvalid
   | none => .err .rustConstExprInvalid
 
@@ -442,21 +389,13 @@ def constTypeOk : RustType → Bool
 
 /-- `parse_const` -/
 def parseConst (E : Ext) (attrs : List Attr) (ident : Str) (ty : SynType) (init : Option Lit) :
-    Outcome RustItem :=
-  match parseConstExpr init with
-  | .ok expr =>
-    (match fieldType E attrs ty with
-    | .ok t =>
-      if constTypeOk t then
-        match getIdent E (some ident) attrs none with
-        | .ok id => .ok (.const { id, ty := t, expr })
-        | .err e => .err e
-        | .panic p => .panic p
-      else .err .rustConstTypeInvalid
-    | .err e => .err e
-    | .panic p => .panic p)
-  | .err e => .err e
-  | .panic p => .panic p
+    Outcome RustItem := do
+  let expr ← parseConstExpr init
+  let t ← fieldType E attrs ty
+  if constTypeOk t then
+    let id ← getIdent E (some ident) attrs none
+    pure (.const { id, ty := t, expr })
+  else .err .rustConstTypeInvalid
 
 end Parser
 end TsV
